@@ -12,6 +12,8 @@ CONSTANTS
   MaxClient = 0
   MaxCrash = 0
   MaxHalf = 0
+  MaxSnap = 0
+  SnapSize = 1
   AsyncKinds = {}
   MaxNet = 0
   W = {}
